@@ -45,6 +45,8 @@ def gen_scenario(rnd, uniq):
                 st["rpdrs"] = [rnd.choice([1, 2, 3])]
             if rnd.random() < 0.15:
                 st["cfars"] = [far(rnd.choice([2, 3]))]
+            if rnd.random() < 0.15:
+                st["fail_ufar"] = rnd.choice([12, 16, 22])   # the data plane rejects the FAR update: nothing is released
             steps.append(st)
         elif x < 0.93:
             steps.append({"op": "del", "seid": 1})
@@ -63,6 +65,13 @@ def directed():
            [{"op": "est", "cfars": [{"id": 1, "action": 4, "ohc": {"teid": 100, "gnb": 0}}], "cqers": [{"id": 5, "qfi": 63}], "cpdrs": [{"id": 1, "far": 1, "qers": [5]}]},
             {"op": "buffer", "seid": 1, "pdr": 1, "action": 4, "pkt": "cc01"},
             {"op": "mod", "seid": 1, "ufars": [{"id": 1, "action": 2, "id_last": True, "ohc": {"teid": 300, "gnb": 1}}]}]]
+    for act in (2, 1):
+        out.append([{"op": "est", "cfars": [{"id": 1, "action": 4, "ohc": {"teid": 9, "gnb": 0}}], "cqers": [], "cpdrs": [{"id": 1, "far": 1, "qers": []}]},
+                    {"op": "buffer", "seid": 1, "pdr": 1, "action": 4, "pkt": "dd01"},
+                    {"op": "buffer", "seid": 1, "pdr": 1, "action": 4, "pkt": "dd02"},
+                    {"op": "mod", "seid": 1, "ufars": [{"id": 1, "action": act, "ohc": {"teid": 400, "gnb": 1}}], "fail_ufar": 12},
+                    {"op": "buffer", "seid": 1, "pdr": 1, "action": 4, "pkt": "dd03"},
+                    {"op": "mod", "seid": 1, "ufars": [{"id": 1, "action": 2, "ohc": {"teid": 401, "gnb": 1}}]}])
     burst = [{"op": "est", "cfars": [{"id": 1, "action": 4, "ohc": {"teid": 5, "gnb": 0}}], "cqers": [], "cpdrs": [{"id": 1, "far": 1, "qers": []}]}]
     for n in (511, 515):
         out.append(burst + [{"op": "burst", "seid": 1, "pdr": 1, "action": 4, "pkt": "90", "count": n},
@@ -99,7 +108,7 @@ def c_step(st):
                                          clist(["(%d, %d)" % (q["id"], q["qfi"]) for q in st.get("cqers", [])]),
                                          clist([c_pdr(p) for p in st.get("cpdrs", [])]),
                                          clist([cN(p) for p in st.get("rpdrs", [])]),
-                                         clist([c_upd(u) for u in st.get("ufars", [])]))
+                                         clist([c_upd(u) for u in ([] if st.get("fail_ufar") else st.get("ufars", []))]))
     if st["op"] == "del":
         return "RDel" if st["seid"] == 1 else "(RBuffer 0 0 [])"
     if st["op"] == "burst":
@@ -216,7 +225,16 @@ def py_monitor(case, impl):
             for x in st.get("rpdrs", []):
                 pdrs.pop(x, None)
             expected_any = False
-            for u in st.get("ufars", []):
+            if st.get("fail_ufar") and st["op"] == "mod":
+                # every FAR update of this request was rejected by the data plane: no FAR switched, so nothing may be
+                # released or discarded - the queues of the PDRs that still exist are what they were
+                if g[0] or g[1]:
+                    bad.append((i, "packets left although the data plane rejected the FAR update (no FAR switched)"))
+                for p in pdrs:
+                    if q.get(p, []) != prevq.get(p, []):
+                        bad.append((i, "queue of PDR %d changed (%d -> %d packets) although the data plane rejected the FAR update"
+                                    % (p, len(prevq.get(p, [])), len(q.get(p, [])))))
+            for u in ([] if st.get("fail_ufar") else st.get("ufars", [])):
                 f = fars.get(u["id"])
                 if f is None:
                     continue
@@ -258,6 +276,18 @@ def py_monitor(case, impl):
         elif st["op"] in ("buffer", "burst"):
             if g[0] or g[1]:
                 bad.append((i, "a buffer notification emitted packets"))
+            # held in arrival order, bounded: the queue afterwards is (queue before ++ arrivals) cut at the capacity - the
+            # OLDEST packets stay, what does not fit is dropped
+            if alive and st.get("seid") == 1 and (st.get("action", 0) & 4):
+                if st["op"] == "burst":
+                    arr = [st["pkt"] + "%06x" % n_ for n_ in range(st.get("count", 0))]
+                else:
+                    arr = [st["pkt"]] if st.get("pkt") else []
+                want_q = (prevq.get(st["pdr"], []) + arr)[:512]
+                if q.get(st["pdr"], []) != want_q:
+                    got_q = q.get(st["pdr"], [])
+                    bad.append((i, "queue of PDR %d after %d arrival(s): %d packets held (first %s, last %s), expected %d (first %s, last %s): "
+                                   "arrival order / capacity rule broken" % (st["pdr"], len(arr), len(got_q), got_q[:1], got_q[-1:], len(want_q), want_q[:1], want_q[-1:])))
         prevq = q
     return bad
 
